@@ -236,9 +236,9 @@ Proof. intros. exact (gprefix_iff_names deploy_elem app entry node x deploy_elem
 
 Definition entry_of (x : names) : bytes * wl := (key_of x, wl_of_names x).
 
-Lemma key_of_id : forall x y, good x -> good y -> key_of x = key_of y -> nm_id x = nm_id y.
+Lemma key_of_id_gen : forall r x y, safe_elem r -> good x -> good y -> gkey r x = gkey r y -> nm_id x = nm_id y.
 Proof.
-  intros x y Gx Gy E. unfold key_of, gkey in E. apply (f_equal (@tl ascii)) in E. cbn [tl] in E. rename E into E'.
+  intros r x y Hr Gx Gy E. unfold gkey in E. apply (f_equal (@tl ascii)) in E. cbn [tl] in E. rename E into E'.
   destruct Gx as [Va [Ve [Vn [Sid _]]]]. destruct Gy as [Va' [Ve' [Vn' [Sid' _]]]].
   apply join_inj in E'; try discriminate.
   - inversion E'. reflexivity.
@@ -247,6 +247,8 @@ Proof.
   - fa; apply safe_no_slash; try assumption; try apply deploy_elem_safe;
       try (apply valid_app_safe; assumption); try (apply valid_entry_safe; assumption).
 Qed.
+Lemma key_of_id : forall x y, good x -> good y -> key_of x = key_of y -> nm_id x = nm_id y.
+Proof. intros x y. exact (key_of_id_gen deploy_elem x y deploy_elem_safe). Qed.
 
 Lemma has_key_false : forall x pre, good x -> Forall good pre -> ~ In (nm_id x) (map nm_id pre) ->
   has_key (key_of x) (map entry_of pre) = false.
@@ -527,6 +529,112 @@ Proof.
 Qed.
 
 (* ================================================================== *)
+(* processing markers (deployments in flight)                          *)
+
+Definition processing_elem : bytes := s2l "processing".
+Lemma processing_elem_safe : safe_elem processing_elem.
+Proof. unfold safe_elem, no_byte. repeat split; try reflexivity. discriminate. Qed.
+
+Definition pnames (p : proc) : names := mkNames (p_app p) (p_entry p) [] (p_node p) (p_ident p).
+(* names accepted by validation; the ident is system generated *)
+Definition good_proc (p : proc) : Prop :=
+  valid_app (p_app p) = true /\ valid_entry (p_entry p) = true /\ valid_node (p_node p) = true /\ safe_elem (p_ident p).
+Lemma good_proc_good : forall p, good_proc p -> good (pnames p).
+Proof. intros p [A [B [C D]]]. unfold good, pnames. cbn. repeat split; try assumption; apply D. Qed.
+
+Lemma proc_key_good : forall p, good_proc p -> proc_key p = gkey processing_elem (pnames p).
+Proof.
+  intros p [Va [Ve [Vn Si]]]. unfold proc_key.
+  change processing_prefix with (slash :: processing_elem).
+  pose proof (valid_app_safe _ Va) as Sa. destruct (valid_entry_safe _ Ve) as [Se _].
+  pose proof (valid_node_safe _ Vn) as Sn.
+  rewrite (join_path_root processing_elem _ processing_elem_safe) by (fa; right; assumption).
+  cbn [filter]. rewrite !safe_nonempty by assumption. reflexivity.
+Qed.
+
+Lemma root_key2 : forall r app entry, safe_elem r -> safe_elem app -> safe_elem entry ->
+  join_path [slash :: r; app; entry] ++ [slash] = filter_key (slash :: r) app entry [].
+Proof.
+  intros r app entry Hr Sa Se.
+  rewrite filter_key_eff by (try assumption; try (right; assumption); left; reflexivity).
+  rewrite (join_path_root r _ Hr) by (fa; right; assumption).
+  cbn [filter]. rewrite !safe_nonempty by assumption.
+  unfold eff. destruct app as [|a app']; [destruct Sa; congruence|].
+  destruct entry as [|e entry']; [destruct Se; congruence|]. reflexivity.
+Qed.
+
+Lemma gkey_node : forall r x, safe_elem r -> good x -> key_node (gkey r x) = nm_node x.
+Proof.
+  intros r x Hr [Va [Ve [Vn [Sid _]]]]. unfold key_node, gkey.
+  pose proof (valid_app_safe _ Va) as Sa. destruct (valid_entry_safe _ Ve) as [Se _].
+  pose proof (valid_node_safe _ Vn) as Sn.
+  change (split_on slash (slash :: join [slash] [r; nm_app x; nm_entry x; nm_node x; nm_id x]))
+    with (let s := split_on slash (join [slash] [r; nm_app x; nm_entry x; nm_node x; nm_id x]) in
+          if Ascii.eqb slash slash then [] :: s else match s with h :: s' => (slash :: h) :: s' | [] => [[slash]] end).
+  rewrite Ascii.eqb_refl. cbv zeta. rewrite split_join.
+  - reflexivity.
+  - discriminate.
+  - fa; apply safe_no_slash; assumption.
+Qed.
+
+Definition pentry (p : proc) : bytes * proc := (proc_key p, p).
+
+(* doLoadProcessing on etcd: exactly the counters filed under (app, entry), with their node *)
+Lemma proc_counts_etcd : forall ps app entry (sel : proc -> bool),
+  Forall good_proc ps -> safe_elem app -> safe_elem entry ->
+  (forall p, sel p = true <-> (p_app p = app /\ p_entry p = entry)) ->
+  proc_counts Etcd (map pentry ps) app entry = map (fun p => (p_node p, p_count p)) (filter sel ps).
+Proof.
+  intros ps app entry sel F Sa Se Sel. unfold proc_counts. cbv zeta.
+  assert (K : proc_filter_key app entry = filter_key (slash :: processing_elem) app entry [])
+    by (exact (root_key2 processing_elem app entry processing_elem_safe Sa Se)).
+  rewrite K. clear K.
+  induction ps as [|p ps IH]; [reflexivity|]. inversion F as [|? ? Gp Fp]; subst.
+  cbn [map filter under]. change (fst (pentry p)) with (proc_key p). rewrite (proc_key_good p Gp).
+  pose proof (gprefix_iff_names processing_elem app entry [] (pnames p) processing_elem_safe
+                (or_intror Sa) (or_intror Se) (or_introl eq_refl) (good_proc_good p Gp)) as P.
+  assert (U : under_names app entry [] (pnames p) <-> (p_app p = app /\ p_entry p = entry)).
+  { unfold under_names, eff, pnames. cbn [nm_app nm_entry nm_node].
+    destruct app; [destruct Sa; congruence|]. destruct entry; [destruct Se; congruence|]. split.
+    - intros [r E]. inversion E. auto.
+    - intros [<- <-]. exists [p_node p]. reflexivity. }
+  destruct (has_prefix (filter_key (slash :: processing_elem) app entry []) (gkey processing_elem (pnames p))) eqn:E1;
+    destruct (sel p) eqn:E2; cbn [map fst snd].
+  - change (fst (pentry p)) with (proc_key p). rewrite (proc_key_good p Gp).
+    rewrite (gkey_node processing_elem (pnames p) processing_elem_safe (good_proc_good p Gp)).
+    change (snd (pentry p)) with p. cbn [pnames nm_node]. f_equal. apply IH. exact Fp.
+  - assert (sel p = true) by (apply Sel, U, P; reflexivity). congruence.
+  - assert (T : false = true) by (apply P, U, Sel, E2). discriminate.
+  - apply IH. exact Fp.
+Qed.
+
+Lemma filter_key_no_meta : forall r app entry node, safe_elem r -> no_meta r ->
+  ok_or_empty app -> ok_or_empty entry -> ok_or_empty node ->
+  no_meta app -> no_meta entry -> no_meta node -> no_meta (filter_key (slash :: r) app entry node).
+Proof.
+  intros r app entry node Hr Mr Ha He Hn Ma Me Mn. rewrite filter_key_eff by assumption.
+  change (slash :: join [slash] (r :: eff app entry node) ++ [slash])
+    with ([slash] ++ join [slash] (r :: eff app entry node) ++ [slash]).
+  apply no_meta_app; [reflexivity|]. apply no_meta_app; [|reflexivity].
+  apply no_meta_join. constructor; [exact Mr|].
+  unfold eff. destruct app; [constructor|]. destruct entry; [fa; assumption|].
+  destruct node; fa; assumption.
+Qed.
+
+Lemma proc_counts_redis_as_etcd : forall s app entry,
+  safe_elem app -> safe_elem entry -> no_meta app -> no_meta entry ->
+  proc_counts Redis s app entry = proc_counts Etcd s app entry.
+Proof.
+  intros s app entry Sa Se Ma Me. unfold proc_counts. cbv zeta. f_equal.
+  apply filter_ext. intro kp. cbn [under]. apply glob_literal_prefix.
+  assert (K : proc_filter_key app entry = filter_key (slash :: processing_elem) app entry [])
+    by (exact (root_key2 processing_elem app entry processing_elem_safe Sa Se)).
+  rewrite K.
+  apply (filter_key_no_meta processing_elem app entry [] processing_elem_safe);
+    try assumption; try (right; assumption); try (left; reflexivity); reflexivity.
+Qed.
+
+(* ================================================================== *)
 (* assembled statements over the key space built by AddWorkload        *)
 
 Lemma build_names_good : forall xs, Forall good xs -> NoDup (map nm_id xs) ->
@@ -563,6 +671,66 @@ Proof.
   intros xs app entry node sel F ND Ha He Hn Ma Me Mn Sel.
   rewrite redis_as_etcd by auto using voe_app, voe_entry, voe_node.
   apply isolation_etcd_built; assumption.
+Qed.
+
+(* GetDeployStatus: per node, the workloads created under (app, entry) plus the in-flight
+   counters created under (app, entry) -- nothing of any other application or entrypoint *)
+Lemma deploy_status_total : forall b xs ps app entry (selw : names -> bool) (selp : proc -> bool),
+  Forall good xs -> NoDup (map nm_id xs) -> Forall good_proc ps ->
+  valid_app app = true -> valid_entry entry = true ->
+  (b = Redis -> no_meta app /\ no_meta entry) ->
+  (forall x, selw x = true <-> (nm_app x = app /\ nm_entry x = entry)) ->
+  (forall p, selp p = true <-> (p_app p = app /\ p_entry p = entry)) ->
+  deploy_status b (fst (build_names [] xs)) (map pentry ps) app entry =
+  agg (map (fun x => (nm_node x, 1%N)) (filter selw xs) ++ map (fun p => (p_node p, p_count p)) (filter selp ps)).
+Proof.
+  intros b xs ps app entry selw selp F ND Fp Va Ve Hb Sw Sp. unfold deploy_status.
+  rewrite (build_names_good xs F ND). cbn [fst].
+  pose proof (valid_app_safe _ Va) as Sa. destruct (valid_entry_safe _ Ve) as [Se _].
+  assert (E1 : status_nodes b (map entry_of xs) app entry = map nm_node (filter selw xs)).
+  { destruct b; [apply status_etcd; assumption|].
+    destruct (Hb eq_refl) as [Ma Me]. rewrite redis_status_as_etcd by assumption. apply status_etcd; assumption. }
+  assert (E2 : proc_counts b (map pentry ps) app entry = map (fun p => (p_node p, p_count p)) (filter selp ps)).
+  { destruct b; [apply proc_counts_etcd; assumption|].
+    destruct (Hb eq_refl) as [Ma Me]. rewrite proc_counts_redis_as_etcd by assumption. apply proc_counts_etcd; assumption. }
+  rewrite E1, E2, map_map. reflexivity.
+Qed.
+
+(* distinct markers (by ident) are all created *)
+Fixpoint build_procs_n (s : pspace) (l : list proc) : pspace * list bool :=
+  match l with
+  | [] => (s, [])
+  | p :: t => let '(s', okb) := add_proc s p in let '(fin, oks) := build_procs_n s' t in (fin, okb :: oks)
+  end.
+Lemma build_procs_is_n : forall pcs s, build_procs s pcs = build_procs_n s (map proc_of pcs).
+Proof.
+  induction pcs as [|p pcs IH]; intro s; [reflexivity|]. simpl.
+  destruct (add_proc s (proc_of p)) as [s' okb]. rewrite IH. reflexivity.
+Qed.
+Lemma build_procs_good : forall ps pre, Forall good_proc pre -> Forall good_proc ps ->
+  NoDup (map p_ident (pre ++ ps)) ->
+  build_procs_n (map pentry pre) ps = (map pentry (pre ++ ps), map (fun _ => true) ps).
+Proof.
+  induction ps as [|p ps IH]; intros pre Fpre Fps ND.
+  - simpl. rewrite app_nil_r. reflexivity.
+  - inversion Fps as [|? ? Gp Fps']; subst. cbn [build_procs_n]. unfold add_proc at 1. cbv zeta.
+    assert (Nin : ~ In (p_ident p) (map p_ident pre)).
+    { rewrite map_app in ND. simpl in ND. apply NoDup_remove_2 in ND. intro C. apply ND. apply in_or_app. left. exact C. }
+    assert (HK : has_pkey (proc_key p) (map pentry pre) = false).
+    { clear - Gp Fpre Nin. induction pre as [|q pre IH]; [reflexivity|]. inversion Fpre as [|? ? Gq Fq]; subst.
+      cbn [map has_pkey pentry]. cbn [map In] in Nin.
+      destruct (bytes_eqb (proc_key p) (proc_key q)) eqn:E.
+      - apply bytes_eqb_eq in E. rewrite (proc_key_good p Gp), (proc_key_good q Gq) in E.
+        apply key_of_id_gen in E; [|apply processing_elem_safe | apply good_proc_good; exact Gp | apply good_proc_good; exact Gq].
+        elim Nin. left. symmetry. exact E.
+      - cbn [orb]. apply IH; [exact Fq|]. intro C. apply Nin. right. exact C. }
+    rewrite HK.
+    change (map pentry pre ++ [(proc_key p, p)]) with (map pentry pre ++ map pentry [p]). rewrite <- map_app.
+    rewrite (IH (pre ++ [p])).
+    + rewrite <- app_assoc. reflexivity.
+    + apply Forall_app. split; [exact Fpre | constructor; [exact Gp | constructor]].
+    + exact Fps'.
+    + rewrite <- app_assoc. exact ND.
 Qed.
 
 Lemma status_built : forall b xs app entry (sel : names -> bool),
